@@ -7,7 +7,7 @@ import random
 from hypothesis import strategies as st
 
 from pbt.common import impl
-from pbt.common.core import Violation, ddmin_list, dec, digest, enc, run_hypothesis
+from pbt.common.core import CaseTimeout, Violation, ddmin_list, dec, digest, enc, run_hypothesis
 from pbt.refsem import jumpvm
 from pbt.refsem.values import values_equal
 from pbt.checks.c01 import gen_program, make_cc, make_probe
@@ -162,7 +162,11 @@ def check_model(model, globals0, limit=LIMIT, validate=True, hosts=None):
             logs = []
             opts = {'logFn': lambda m: logs.append(('log', m)), 'maxStatements': limit} if how == 'no-globals-member' else None
             try:
-                res = ('ok', impl.bs.execute_script(model, opts) if opts is not None else impl.bs.execute_script(model))
+                # (the reference run ended within `limit` statements, so this run ends in milliseconds - unless state left behind by an earlier
+                # run keeps it going: without options nothing but the default budget of 1e9 statements would stop it)
+                res = ('ok', _with_deadline(10.0, lambda: impl.bs.execute_script(model, opts) if opts is not None else impl.bs.execute_script(model)))
+            except CaseTimeout:
+                res = ('host-exception', 'still running after 10 s')
             except impl.bs.RuntimeError as e:
                 res = ('runtime-error', str(e))
             except Exception as e:  # pylint: disable=broad-except
@@ -175,6 +179,17 @@ def check_model(model, globals0, limit=LIMIT, validate=True, hosts=None):
 
 
 _counter = [0]
+
+
+def _with_deadline(seconds, fn):
+    import signal
+    from pbt.common.core import _alarm
+    signal.signal(signal.SIGALRM, _alarm)
+    before = signal.setitimer(signal.ITIMER_REAL, seconds)
+    try:
+        return fn()
+    finally:
+        signal.setitimer(signal.ITIMER_REAL, before[0])        # (back to the per-case watchdog of run_hypothesis, if one was armed)
 
 
 # ---- random hand-built models -----------------------------------------------------------------------------------------
